@@ -7,7 +7,7 @@ function / method so that harness/pycode_types.py can compare it with the real P
 
 Argument atoms: those of PyCodeDriver (`n t f i… b… s… L… T… D…`) and, one level deep,
 `O<class>:<slot>=<atom>;<slot>=<atom>…` an instance (`~` as atom: slot never assigned),
-`F<bytes>_<bits>` a float carried as its IEEE pattern, `X<hex>` the text of an IPv6 address.
+`F<bytes>_<bits>` a float carried as its IEEE pattern, `X<hex>` the text of an IPv6 address, `E<hex key>/<scalar>+…` a dict of scalars.
 Answer: `ok <value>` or `err <exception class>`; a method answers the tuple `(result,instance afterwards)`.
 -/
 namespace PlumVerif.PyCodeTypes
@@ -21,6 +21,14 @@ def parseAtomT (a : String) : Option V :=
     | _ => none
   | 'X' :: r => (parseHex (String.ofList r)).map PyT.ipv6Text
   | ['~'] => some PyT.unset
+  | 'E' :: r => do
+    -- a dict of scalars that can stand inside an instance: `E<hex key>/<scalar>+<hex key>/<scalar>…`
+    let s := String.ofList r
+    let kvs ← (if s = "" then some [] else (s.splitOn "+").mapM fun kv =>
+      match kv.splitOn "/" with
+      | [k, v] => do pure ((← parseStr k), (← parseScalar v))
+      | _ => none)
+    pure (.dict (kvs.map (·.1)) (kvs.map (·.2)))
   | _ => parseArg a
 
 def parseArgT (a : String) : Option V :=
